@@ -35,6 +35,9 @@ type MethodPlan struct {
 	InStamped  bool   `json:"in_stamped"`  // request type carries stamp/num (not Empty)
 	OutStamped bool   `json:"out_stamped"` // reply type carries stamp/num
 	ResStamped bool   `json:"res_stamped"` // result type (custom or reply type) carries stamp/num
+	// Twin: another method of the same kind has a result type of the same
+	// base name in another package (the promise types are named by base name).
+	Twin bool `json:"twin,omitempty"`
 }
 
 // DriverPlan lists the methods in call order.
@@ -81,16 +84,13 @@ func DriverSource(d Def, pkg string) (string, DriverPlan, error) {
 	svc := pf.Services[0]
 	plan.Service = svc.GoName
 
-	usedDep, usedEmpty := false, false
 	goType := func(id protogen.GoIdent) string {
 		switch string(id.GoImportPath) {
 		case ScratchModule + "/" + pkg:
 			return "pb." + id.GoName
 		case ScratchModule + "/" + pkg + "dep":
-			usedDep = true
 			return "dep." + id.GoName
 		case "google.golang.org/protobuf/types/known/emptypb":
-			usedEmpty = true
 			return "emptypb." + id.GoName
 		}
 		return "UNKNOWN_PACKAGE_" + id.GoName
@@ -112,6 +112,23 @@ func DriverSource(d Def, pkg string) (string, DriverPlan, error) {
 		}
 		mp := MethodPlan{Name: dm.Name, GoName: pm.GoName, Kind: methodKind(dm), PerNode: dm.PerNodeArg, Custom: dm.CustomReturn != "",
 			InStamped: stamped(pm.Input.GoIdent), OutStamped: stamped(pm.Output.GoIdent), ResStamped: resStamped}
+		for j, om := range svc.Methods {
+			odm := d.File.Services[0].Methods[j]
+			if j == i || methodKind(odm) != mp.Kind {
+				continue
+			}
+			oid := om.Output.GoIdent
+			if odm.CustomReturn != "" {
+				oid.GoName = odm.CustomReturn
+			}
+			rid := pm.Output.GoIdent
+			if dm.CustomReturn != "" {
+				rid.GoName = dm.CustomReturn
+			}
+			if oid.GoName == rid.GoName && oid.GoImportPath != rid.GoImportPath {
+				mp.Twin = true
+			}
+		}
 		plan.Methods = append(plan.Methods, mp)
 		q := fmt.Sprintf("%q", dm.Name)
 
@@ -199,6 +216,10 @@ func DriverSource(d Def, pkg string) (string, DriverPlan, error) {
 		fmt.Fprintf(&callB, "\t})\n\tvd.AwaitHandlers(%s, %d)\n\n", q, targets)
 	}
 
+	// import what the emitted code mentions
+	body := srvB.String() + qfB.String() + callB.String()
+	usedEmpty := strings.Contains(body, "emptypb.")
+	usedDep := strings.Contains(body, "dep.")
 	var b strings.Builder
 	b.WriteString("// Code generated by the verification harness (C17 part 2). DO NOT EDIT.\npackage main\n\nimport (\n\t\"context\"\n\n\t\"github.com/relab/gorums\"\n")
 	if usedEmpty {
@@ -546,10 +567,13 @@ type DrvLog struct {
 	Fatal  string     `json:"fatal,omitempty"`
 }
 
-// Binding is one violated clause of C17 part 2.
+// Binding is one violated clause of C17 part 2. Msg is a deterministic
+// function of the definition and the violated clause (rapid's shrinker needs a
+// reproducible message); what was observed in this particular run is in Detail.
 type Binding struct {
-	Key string // C17/binding/<kind…>/<what>
-	Msg string
+	Key    string // C17/binding/<kind…>/<what>
+	Msg    string
+	Detail string
 }
 
 // CheckDriverLog evaluates the oracle of C17 part 2 on a driver log: calling
@@ -561,12 +585,12 @@ type Binding struct {
 // quorum function.
 func CheckDriverLog(plan DriverPlan, lg DrvLog) []Binding {
 	var out []Binding
-	bad := func(mp MethodPlan, opt, what, format string, args ...any) {
+	bad := func(mp MethodPlan, opt, what, msg, detailFormat string, args ...any) {
 		k := mp.Kind
 		if opt != "" {
 			k += "+" + opt
 		}
-		out = append(out, Binding{Key: "C17/binding/" + k + "/" + what, Msg: fmt.Sprintf("method %s (%s): ", mp.Name, mp.Kind) + fmt.Sprintf(format, args...)})
+		out = append(out, Binding{Key: "C17/binding/" + k + "/" + what, Msg: fmt.Sprintf("method %s (%s): %s", mp.Name, k, msg), Detail: fmt.Sprintf(detailFormat, args...)})
 	}
 	ids := map[uint32]int{}
 	for i := 0; i < DrvServers; i++ {
@@ -597,7 +621,7 @@ func CheckDriverLog(plan DriverPlan, lg DrvLog) []Binding {
 	for _, mp := range plan.Methods {
 		w := wins[mp.Name]
 		if w == nil || w.end == nil {
-			bad(mp, "", "not-called", "the driver did not get to call the stub (fatal: %s)", trim(lg.Fatal, 300))
+			bad(mp, "", "not-called", "the driver did not get to call the stub", "fatal: %s", trim(lg.Fatal, 300))
 			continue
 		}
 		res := w.end
@@ -616,7 +640,7 @@ func CheckDriverLog(plan DriverPlan, lg DrvLog) []Binding {
 		perNodes := map[uint32]int{}
 		for _, e := range w.events {
 			if e.Method != mp.Name {
-				bad(mp, "", "foreign-"+e.Kind, "calling the stub made %s of method %s run", e.Kind, e.Method)
+				bad(mp, "", "foreign-"+e.Kind, "calling the stub made the "+e.Kind+" of another method run", "%s of method %s", e.Kind, e.Method)
 				continue
 			}
 			switch e.Kind {
@@ -629,11 +653,16 @@ func CheckDriverLog(plan DriverPlan, lg DrvLog) []Binding {
 			}
 		}
 		if res.Panic != "" {
-			bad(mp, customOpt, "panic", "the stub panicked: %s", firstLines(res.Panic, 1))
+			what := "panic"
+			if mp.Twin && strings.Contains(res.Panic, "interface conversion") {
+				// two result types with one base name share one generated promise type
+				what = "panic/same-base-name-types"
+			}
+			bad(mp, customOpt, what, "the stub panicked: "+firstLines(res.Panic, 1), "%s", trim(res.Panic, 1500))
 			continue
 		}
 		if res.TimedOut {
-			bad(mp, "", "timeout", "the call did not complete within its 8 s deadline (handlers run: %d, quorum function invocations: %d)", len(handlers), len(qfs))
+			bad(mp, "", "timeout", "the call did not complete within its 8 s deadline", "handlers run on %d servers, %d quorum function invocations", len(handlers), len(qfs))
 			continue
 		}
 		// handlers
@@ -649,11 +678,11 @@ func CheckDriverLog(plan DriverPlan, lg DrvLog) []Binding {
 			hs := handlers[s]
 			switch {
 			case targets[s] && len(hs) == 0:
-				bad(mp, "", "handler-not-run", "handler did not run on targeted server %d", s)
+				bad(mp, "", "handler-not-run", "the handler did not run on every targeted server", "server %d", s)
 			case targets[s] && len(hs) > 1:
-				bad(mp, "", "handler-ran-twice", "handler ran %d times on server %d", len(hs), s)
+				bad(mp, "", "handler-ran-twice", "the handler ran more than once on a server", "%d times on server %d", len(hs), s)
 			case !targets[s] && len(hs) > 0:
-				bad(mp, "", "handler-on-untargeted-server", "handler ran on server %d, which was not targeted", s)
+				bad(mp, "", "handler-on-untargeted-server", "the handler ran on a server that was not targeted", "server %d", s)
 			}
 			if targets[s] && len(hs) >= 1 && mp.InStamped {
 				got := hs[0].Msg
@@ -662,7 +691,7 @@ func CheckDriverLog(plan DriverPlan, lg DrvLog) []Binding {
 					wantStamp, wantNum = "pn:"+mp.Name, uint64(DrvFirstID+s)
 				}
 				if got.Stamp != wantStamp || got.Num != wantNum {
-					bad(mp, perNodeOpt, "request-mismatch", "server %d received request {%q %d}, sent {%q %d}", s, got.Stamp, got.Num, wantStamp, wantNum)
+					bad(mp, perNodeOpt, "request-mismatch", "a server received a request that differs from the one sent to it", "server %d received {%q %d}, sent {%q %d}", s, got.Stamp, got.Num, wantStamp, wantNum)
 				}
 			}
 		}
@@ -670,80 +699,80 @@ func CheckDriverLog(plan DriverPlan, lg DrvLog) []Binding {
 		if mp.PerNode && mp.Kind != "rpc" && mp.Kind != "unicast" {
 			for id := range ids {
 				if perNodes[id] != 1 {
-					bad(mp, perNodeOpt, "per-node-function-calls", "per-node function was called %d times for node %d", perNodes[id], id)
+					bad(mp, perNodeOpt, "per-node-function-calls", "the per-node function was not called exactly once per node", "%d times for node %d", perNodes[id], id)
 				}
 			}
 		} else if len(perNodes) > 0 {
-			bad(mp, "", "per-node-function-calls", "a per-node function ran although none was declared")
+			bad(mp, "", "per-node-function-calls", "a per-node function ran although none was declared", "")
 		}
 		// quorum function
 		hasQF := mp.Kind == "quorumcall" || mp.Kind == "async" || mp.Kind == "correctable" || mp.Kind == "correctablestream"
 		if !hasQF {
 			if len(qfs) > 0 {
-				bad(mp, "", "unexpected-quorum-function", "a quorum function ran for a method without one")
+				bad(mp, "", "unexpected-quorum-function", "a quorum function ran for a method without one", "")
 			}
 			if mp.Kind == "rpc" {
 				if res.Err != "" {
-					bad(mp, "", "call-error", "the call failed: %s", res.Err)
+					bad(mp, "", "call-error", "the call failed", "%s", res.Err)
 				} else if res.Msg.Nil {
-					bad(mp, "", "result", "nil reply without error")
+					bad(mp, "", "result", "nil reply without error", "")
 				} else if mp.OutStamped && (res.Msg.Stamp != "rep:"+mp.Name || res.Msg.Num != uint64(DrvFirstID+DrvRPCNode)) {
-					bad(mp, "", "result", "reply is {%q %d}, the handler on the called node answered {%q %d}", res.Msg.Stamp, res.Msg.Num, "rep:"+mp.Name, DrvFirstID+DrvRPCNode)
+					bad(mp, "", "result", "the reply is not the one the handler on the called node sent", "got {%q %d}, the handler answered {%q %d}", res.Msg.Stamp, res.Msg.Num, "rep:"+mp.Name, DrvFirstID+DrvRPCNode)
 				}
 			}
 			continue
 		}
 		if res.Err != "" {
-			bad(mp, "", "call-error", "the call failed: %s", res.Err)
+			bad(mp, "", "call-error", "the call failed", "%s", res.Err)
 			continue
 		}
 		if len(qfs) == 0 {
-			bad(mp, "", "quorum-function-not-run", "the quorum function never ran")
+			bad(mp, "", "quorum-function-not-run", "the quorum function never ran", "")
 			continue
 		}
 		seen := map[[2]uint64]bool{}
 		for _, q := range qfs {
 			if mp.InStamped && (q.Msg.Stamp != "req:"+mp.Name || q.Msg.Num != DrvReqNum) {
-				bad(mp, "", "quorum-function-request", "quorum function got request {%q %d}, the call was made with {%q %d}", q.Msg.Stamp, q.Msg.Num, "req:"+mp.Name, DrvReqNum)
+				bad(mp, "", "quorum-function-request", "the quorum function did not get the request the call was made with", "got {%q %d}, the call was made with {%q %d}", q.Msg.Stamp, q.Msg.Num, "req:"+mp.Name, DrvReqNum)
 				break
 			}
 			for id, r := range q.Replies {
 				if _, ok := ids[id]; !ok {
-					bad(mp, "", "reply-under-unknown-node", "quorum function got a reply under node id %d", id)
+					bad(mp, "", "reply-under-unknown-node", "the quorum function got a reply under an unknown node id", "node id %d", id)
 					continue
 				}
 				if r.Nil {
-					bad(mp, "", "reply-nil", "quorum function got a nil reply for node %d", id)
+					bad(mp, "", "reply-nil", "the quorum function got a nil reply", "node %d", id)
 					continue
 				}
 				if !mp.OutStamped {
 					continue
 				}
 				if r.Stamp != "rep:"+mp.Name {
-					bad(mp, "", "reply-of-other-method", "quorum function got a reply stamped %q", r.Stamp)
+					bad(mp, "", "reply-of-other-method", "the quorum function got a reply that the method's handler did not send", "stamp %q", r.Stamp)
 				} else if r.Num%1000 != uint64(id) {
-					bad(mp, "", "reply-under-wrong-node", "reply of node %d was delivered under node id %d", r.Num%1000, id)
+					bad(mp, "", "reply-under-wrong-node", "a reply was delivered under another node's id", "reply of node %d under id %d", r.Num%1000, id)
 				}
 				seen[[2]uint64{uint64(id), r.Num / 1000}] = true
 			}
 		}
 		last := qfs[len(qfs)-1]
 		if !last.Done {
-			bad(mp, "", "returned-before-quorum", "the call returned although the last quorum function invocation reported no quorum")
+			bad(mp, "", "returned-before-quorum", "the call returned although the last quorum function invocation reported no quorum", "")
 			continue
 		}
 		if len(last.Replies) != DrvServers {
-			bad(mp, "", "replies-missing", "the final quorum function invocation saw %d replies, expected %d", len(last.Replies), DrvServers)
+			bad(mp, "", "replies-missing", "the final quorum function invocation did not see a reply of every node", "%d replies", len(last.Replies))
 		}
 		if mp.Kind == "correctablestream" {
 			if len(qfs) != DrvServers*DrvStreamLen {
-				bad(mp, "", "stream-invocations", "%d quorum function invocations for %d streamed replies", len(qfs), DrvServers*DrvStreamLen)
+				bad(mp, "", "stream-invocations", "the quorum function was not invoked once per streamed reply", "%d invocations for %d replies", len(qfs), DrvServers*DrvStreamLen)
 			}
 			if mp.OutStamped {
 				for id := range ids {
 					for k := 1; k <= DrvStreamLen; k++ {
 						if !seen[[2]uint64{uint64(id), uint64(k)}] {
-							bad(mp, "", "stream-reply-lost", "streamed reply %d of node %d never reached the quorum function", k, id)
+							bad(mp, "", "stream-reply-lost", "a streamed reply never reached the quorum function", "reply %d of node %d", k, id)
 						}
 					}
 				}
@@ -752,12 +781,16 @@ func CheckDriverLog(plan DriverPlan, lg DrvLog) []Binding {
 		// the stub's result is the value the quorum function built
 		switch {
 		case res.Msg.Nil:
-			bad(mp, customOpt, "result", "nil result without error")
+			bad(mp, customOpt, "result", "nil result without error", "")
 		case mp.ResStamped && (res.Msg.Stamp != "qf:"+mp.Name || res.Msg.Num != uint64(last.Seq)):
-			bad(mp, customOpt, "result-not-from-quorum-function", "the stub returned {%q %d}; the quorum function built {%q %d}", res.Msg.Stamp, res.Msg.Num, "qf:"+mp.Name, last.Seq)
+			what := "the stub's result is not the value the quorum function built"
+			if strings.HasPrefix(res.Msg.Stamp, "rep:") {
+				what += " (it is a node's reply)"
+			}
+			bad(mp, customOpt, "result-not-from-quorum-function", what, "the stub returned {%q %d}; the quorum function built {%q %d}", res.Msg.Stamp, res.Msg.Num, "qf:"+mp.Name, last.Seq)
 		}
 		if res.HasLevel && res.Level != last.Level {
-			bad(mp, "", "level-not-from-quorum-function", "the stub reports level %d; the quorum function returned %d", res.Level, last.Level)
+			bad(mp, "", "level-not-from-quorum-function", "the level the stub reports is not the one the quorum function returned with its final value", "stub %d, quorum function %d", res.Level, last.Level)
 		}
 	}
 	// stable order, duplicates removed
